@@ -9,6 +9,6 @@ CONSTANTS
   DtVals <- T3
   WithDeviations = FALSE
   WithCache = FALSE
-INVARIANTS ChildEqualsDerived EntropyStrictlyIncreases ParentEntropyRecorded NumbersConsecutive PrimeTerminusIsLastPrime OrderStable IntrinsicPositive
+INVARIANTS ChildEqualsDerived EntropyStrictlyIncreases ParentEntropyRecorded NumbersConsecutive PrimeTerminusIsLastPrime OrderStable OrderIsFunctionOfSealAndDeltas IntrinsicPositive
 VIEW view
 CHECK_DEADLOCK FALSE
